@@ -85,13 +85,14 @@ func (a ammW) fails(tag string) bool {
 type side struct{ liab, cust, coll sdkmath.Int }
 
 type state struct {
-	env    *wire.Env
-	bal    map[string]sdkmath.Int // amm reserves
-	long   map[string]side        // pool aggregates = sums over the other (not modelled) positions
-	short  map[string]side
-	wallet map[string]sdkmath.Int
-	count  uint64
-	noC11  bool // sub-steps that the accounted-pool hook has not followed yet
+	env      *wire.Env
+	bal      map[string]sdkmath.Int // amm reserves
+	long     map[string]side        // pool aggregates = sums over the other (not modelled) positions
+	short    map[string]side
+	wallet   map[string]sdkmath.Int
+	count    uint64
+	noC11    bool // sub-steps that the accounted-pool hook has not followed yet
+	twoPools bool // a second, empty perpetual pool (id 2) trading the same asset exists
 }
 
 func nonneg(name string) sdkmath.Int {
@@ -173,6 +174,9 @@ func (s *state) check(label string) {
 	for i, d := range []string{atom, usdc} {
 		wantL, wantS := s.long[d], s.short[d]
 		for _, m := range mtps {
+			if m.AmmPoolId != 1 {
+				continue // positions of other pools belong to those pools' totals
+			}
 			tgt := &wantL
 			if m.Position == perptypes.Position_SHORT {
 				tgt = &wantS
@@ -205,6 +209,9 @@ func (s *state) check(label string) {
 		vrf.Assert(acc.NonAmmPoolTokens[i].Amount.Equal(non), "C11 "+label+": non-pool part == liabilities - custody ("+d+")")
 	}
 	vrf.Assert(env.Perp.GetOpenMTPCount(ctx) == s.count+uint64(len(mtps)), "C09 "+label+": open-position counter == number of stored positions")
+	if s.twoPools {
+		s.checkPool2(label)
+	}
 }
 
 func open(pos perptypes.Position, collDenom string) {
@@ -316,6 +323,7 @@ func setupPosColl(pos perptypes.Position, collAsset string) (*state, perptypes.M
 	}
 	env.Acc.SetAccountedPool(ctx, acc)
 	env.Perp.SetOpenMTPCount(ctx, s.count+1)
+	env.Perp.SetMTPCount(ctx, 1) // ids handed out so far
 	// cumulative funding / interest rate blocks at both ends of the interval
 	rate := func(name string) sdkmath.LegacyDec {
 		r := vrf.Dec(name)
@@ -469,3 +477,108 @@ func H_Close_Short_SameBlock() {
 
 // Setup exposes the symbolic perpetual pool state (no explicit position) to other harness packages (C18).
 func Setup() *wire.Env { return setup().env }
+
+// ---- two pools trading the same asset ----
+
+var poolAddr2 = ammtypes.NewPoolAddress(2)
+
+// addPool2: a second oracle amm pool uatom/uusdc with ample reserves, its (empty) perpetual pool and accounted pool
+func (s *state) addPool2() {
+	env, ctx := s.env, s.env.Ctx
+	big := sdkmath.NewIntWithDecimal(1, 30)
+	ammPool := ammtypes.Pool{
+		PoolId: 2, Address: poolAddr2.String(), RebalanceTreasury: ammtypes.NewPoolRebalanceTreasury(2).String(),
+		PoolParams:  ammtypes.PoolParams{UseOracle: true, SwapFee: sdkmath.LegacyZeroDec(), FeeDenom: usdc},
+		TotalShares: sdk.Coin{Denom: ammtypes.GetPoolShareDenom(2), Amount: sdkmath.NewInt(1000000)},
+		PoolAssets: []ammtypes.PoolAsset{
+			{Token: sdk.Coin{Denom: atom, Amount: big}, Weight: sdkmath.NewInt(1), ExternalLiquidityRatio: sdkmath.LegacyOneDec()},
+			{Token: sdk.Coin{Denom: usdc, Amount: big}, Weight: sdkmath.NewInt(1), ExternalLiquidityRatio: sdkmath.LegacyOneDec()},
+		},
+		TotalWeight: sdkmath.NewInt(2),
+	}
+	env.Amm.SetPool(ctx, ammPool)
+	pp := perptypes.NewPool(ammPool)
+	z := sdkmath.ZeroInt()
+	for i := range pp.PoolAssetsLong {
+		pp.PoolAssetsLong[i].Collateral, pp.PoolAssetsLong[i].TakeProfitCustody, pp.PoolAssetsLong[i].TakeProfitLiabilities = z, z, z
+		pp.PoolAssetsShort[i].Collateral, pp.PoolAssetsShort[i].TakeProfitCustody, pp.PoolAssetsShort[i].TakeProfitLiabilities = z, z, z
+	}
+	env.Perp.SetPool(ctx, pp)
+	acc := aptypes_acc.AccountedPool{PoolId: 2}
+	for _, d := range []string{atom, usdc} {
+		env.W.SetBal(poolAddr2, d, big)
+		dl, _ := env.Amm.GetDenomLiquidity(ctx, d)
+		env.Amm.SetDenomLiquidity(ctx, ammtypes.DenomLiquidity{Denom: d, Liquidity: dl.Liquidity.Add(big)})
+		acc.TotalTokens = append(acc.TotalTokens, sdk.Coin{Denom: d, Amount: big})
+		acc.NonAmmPoolTokens = append(acc.NonAmmPoolTokens, sdk.Coin{Denom: d, Amount: z})
+	}
+	env.Acc.SetAccountedPool(ctx, acc)
+	s.twoPools = true
+}
+
+// checkPool2: pool 2 started empty, so its totals are exactly the sums over the trader's positions recorded on it
+func (s *state) checkPool2(label string) {
+	env, ctx := s.env, s.env.Ctx
+	pp, found := env.Perp.GetPool(ctx, 2)
+	vrf.Assert(found, label+": perpetual pool 2 still stored")
+	for i, d := range []string{atom, usdc} {
+		var wl, ws side
+		wl, ws = side{sdkmath.ZeroInt(), sdkmath.ZeroInt(), sdkmath.ZeroInt()}, side{sdkmath.ZeroInt(), sdkmath.ZeroInt(), sdkmath.ZeroInt()}
+		for _, m := range env.Perp.GetAllMTPsForAddress(ctx, trader) {
+			if m.AmmPoolId != 2 {
+				continue
+			}
+			tgt := &wl
+			if m.Position == perptypes.Position_SHORT {
+				tgt = &ws
+			}
+			if m.LiabilitiesAsset == d {
+				tgt.liab = tgt.liab.Add(m.Liabilities)
+			}
+			if m.CustodyAsset == d {
+				tgt.cust = tgt.cust.Add(m.Custody)
+			}
+			if m.CollateralAsset == d {
+				tgt.coll = tgt.coll.Add(m.Collateral)
+			}
+		}
+		vrf.Assert(pp.PoolAssetsLong[i].Liabilities.Equal(wl.liab), "C09 "+label+": pool 2 long liabilities == sum over its positions ("+d+")")
+		vrf.Assert(pp.PoolAssetsLong[i].Custody.Equal(wl.cust), "C09 "+label+": pool 2 long custody == sum over its positions ("+d+")")
+		vrf.Assert(pp.PoolAssetsLong[i].Collateral.Equal(wl.coll), "C09 "+label+": pool 2 long collateral == sum over its positions ("+d+")")
+		vrf.Assert(pp.PoolAssetsShort[i].Liabilities.Equal(ws.liab), "C09 "+label+": pool 2 short liabilities == sum over its positions ("+d+")")
+		vrf.Assert(pp.PoolAssetsShort[i].Custody.Equal(ws.cust), "C09 "+label+": pool 2 short custody == sum over its positions ("+d+")")
+	}
+}
+
+// an owner who holds a position on pool 1 opens the same side / asset / collateral on pool 2
+//
+//vrf:cover open-ok
+//vrf:bound 2 perpetual pools trading the same asset; 1 explicit position on pool 1 (+ symbolic remainder), pool 2 empty with ample reserves; open on pool 2 with symbolic collateral and leverage in (1, 25]
+//vrf:max-paths 4000
+func H_Open_SameAssetOtherPool() {
+	estNoFail = true
+	settledThisBlock = true
+	pos := perptypes.Position_LONG
+	if vrf.Bool("short") {
+		pos = perptypes.Position_SHORT
+	}
+	s, _ := setupPos(pos)
+	s.addPool2()
+	env, ctx := s.env, s.env.Ctx
+	coll := vrf.Int("collateral")
+	vrf.Assume(coll.IsPositive())
+	vrf.Assume(coll.LTE(sdkmath.NewIntWithDecimal(1, 18)))
+	lev := vrf.Dec("leverage")
+	vrf.Assume(lev.GT(sdkmath.LegacyOneDec()))
+	vrf.Assume(lev.LTE(sdkmath.LegacyNewDec(25)))
+	tp := vrf.Dec("takeProfit")
+	vrf.Assume(tp.IsPositive())
+	msg := &perptypes.MsgOpen{Creator: trader.String(), Position: pos, Leverage: lev, TradingAsset: atom, Collateral: sdk.Coin{Denom: usdc, Amount: coll},
+		TakeProfitPrice: tp, StopLossPrice: sdkmath.LegacyZeroDec(), PoolId: 2}
+	if _, err := env.Perp.Open(ctx, msg); err != nil {
+		return
+	}
+	vrf.Cover("open-ok")
+	s.noC11 = true // pool 1 is not touched; C11 of pool 2 is not modelled here
+	s.check("open-on-other-pool")
+}
